@@ -1,6 +1,7 @@
 // C08 oracle: export -> (simulated storage) -> import is lossless up to
 // renumbering. Returns "" or the first failing clause.
 #pragma once
+#include <cstring>
 #include <sstream>
 
 #include "manifold/manifold.h"
@@ -61,7 +62,7 @@ inline std::vector<CanonRec> canon_records(const MeshGL64& g, const CanonCfg& c)
             nrm[k][p - 3] = d;
             continue;
           }
-          corner[k].push_back(dbits(d));
+          corner[k].push_back(dbits(d + 0.0));  // -0.0 and 0.0 are one value (DedupePropVerts merges them, keeping either)
         }
         if (hasT)
           for (int q = 0; q < 4; q++) {
@@ -115,7 +116,14 @@ inline std::string canon_compare(const MeshGL64& a, const MeshGL64& b, const Can
       size_t per = np - nNormal + ((c.tangents && !a.halfedgeTangent.empty()) ? 4 : 0);
       size_t within = per ? j % per : 0;
       if (within < 3) return "position";
-      if (within < np - nNormal) return "property";
+      if (within < np - nNormal) {
+        double va, vb;
+        memcpy(&va, &x[j + (c.runs ? 15 : 0)], 8);
+        memcpy(&vb, &y[j + (c.runs ? 15 : 0)], 8);
+        char buf[120];
+        snprintf(buf, sizeof buf, "(record %zu channel %zu: %.17g vs %.17g)", i, within - 3 + (nNormal && within >= 3 ? 3 : 0), va, vb);
+        return std::string("property") + buf;
+      }
       return "tangent";
     }
     if (ra[i].hasNormals) {
@@ -156,10 +164,17 @@ inline std::string merge_rederives(const Manifold& m, const MeshGL64& g) {
   s.numProp = g.numProp;
   s.vertProperties = g.vertProperties;
   s.triVerts = g.triVerts;
-  s.tolerance = g.tolerance;
+  // The statement is about vertices split for their properties, which coincide exactly: Merge() runs at
+  // its default (geometric) tolerance. With the object's own, raised tolerance (SetTolerance) Merge() fuses
+  // every pair of open vertices closer than that, by design, and may destroy a mesh whose features are
+  // smaller -- that is not what the clause claims.
   s.Merge();
   Manifold r(s);
-  if (r.Status() != Manifold::Error::NoError) return "Merge_insufficient:status" + std::to_string((int)r.Status());
+  if (r.Status() != Manifold::Error::NoError) {
+    char buf[64];
+    snprintf(buf, sizeof buf, "(tolerance %.6g)", (double)g.tolerance);
+    return "Merge_insufficient:status" + std::to_string((int)r.Status()) + buf;
+  }
   // Merge() works from positions, so vertices the library keeps distinct at
   // one position (split pinched vertices) may be fused and split again on
   // import: counts may differ, manifoldness (NoError) is what is promised.
